@@ -295,8 +295,13 @@ def eval_label(case):
     attempt('delegation-details', dele,
             lambda: getattr(box['d'].get_by_delegation_id('del1').get_details(), f) if box.get('d') is not None else None)
     # model element: update_labels on a live node; what is stored is read back from the model graph
-    t = topo()
-    n = t.nodes['n1']
+    try:
+        t = topo()
+        n = t.nodes['n1']
+    except Exception:
+        _reset_topo()              # a value stored by an earlier case made the shared scratch topology unreadable
+        t = topo()
+        n = t.nodes['n1']
     n.set_property('labels', Labels(local_name='keep'))
 
     def ul():
@@ -310,6 +315,8 @@ def eval_label(case):
                 v.append((f'accepted-not-reencodable/{f}', f'{f}={s!r} accepted, encoded as {box["x"].to_json()!r}, decoded as {None if back is None else getattr(back, f)!r}'))
         except Exception as e:
             v.append((f'accepted-not-reencodable/{f}', f'{f}={s!r} accepted but decode(encode) raised {type(e).__name__}: {e}'))
+    if v:
+        _reset_topo()              # do not carry a value that should not have been stored into the next case
     return {'v': v, 'nt': (f, s), 'out': f'{f}:{verdict}'}
 
 
